@@ -157,6 +157,7 @@ pub fn c03_judge(acc: &mut Acc, core: &core_lang::syntax::Prog, args: &[i64], sr
 }
 
 pub fn c03(ctx: &Ctx, acc: &mut Acc) {
+    super::corpus::middle(ctx, acc);
     let max_cases: u64 = if ctx.quick() { 6_000 } else { 100_000_000 };
     let mut i = 0u64;
     while ctx.time_left() && i < max_cases {
@@ -252,6 +253,7 @@ pub fn c04_judge(acc: &mut Acc, focused: &core_lang::syntax::program::FsProg, ar
 }
 
 pub fn c04(ctx: &Ctx, acc: &mut Acc) {
+    super::corpus::middle(ctx, acc);
     let max_cases: u64 = if ctx.quick() { 6_000 } else { 100_000_000 };
     let mut i = 0u64;
     while ctx.time_left() && i < max_cases {
@@ -358,6 +360,7 @@ pub fn axgen_case(seed: u64, prints: bool) -> (axcut::syntax::Prog, Vec<Vec<i64>
 }
 
 pub fn c05(ctx: &Ctx, acc: &mut Acc) {
+    super::corpus::middle(ctx, acc);
     let max_cases: u64 = if ctx.quick() { 6_000 } else { 100_000_000 };
     let mut i = 0u64;
     while ctx.time_left() && i < max_cases {
@@ -530,6 +533,7 @@ pub fn c12_judge(acc: &mut Acc, src: &str, origin: &str) -> bool {
 }
 
 pub fn c12(ctx: &Ctx, acc: &mut Acc) {
+    super::corpus::middle(ctx, acc);
     let max_cases: u64 = if ctx.quick() { 6_000 } else { 100_000_000 };
     let mut i = 0u64;
     while ctx.time_left() && i < max_cases {
